@@ -483,19 +483,29 @@ def scaledOf : Val → Int
 
 def scaledSum (vs : List Val) : Int := (vs.map scaledOf).foldl (· + ·) 0
 
+/-- the numeric value of a number, times 2^1074 (NaN has none) -/
+def numK : Val → Option Int
+  | .int i => some (i * 2 ^ 1074)
+  | .float b => if isNaN b then none else some (scaledF b)
+  | _ => none
+
+def isStr : Val → Bool
+  | .str _ => true
+  | _ => false
+
+def strLt : Val → Val → Bool
+  | .str x, .str y => decide (x < y)
+  | _, _ => false
+
 /-- value order of the specification: numbers by their exact numeric value (an integer and a float
 compare as the rationals they denote; NaN compares with nothing), numbers before strings, strings
 by code points -/
 def specLt (a b : Val) : Bool :=
-  match a, b with
-  | .int x, .int y => x < y
-  | .str x, .str y => x < y
-  | .int _, .str _ => true
-  | .float _, .str _ => true
-  | .float x, .float y => !isNaN x && !isNaN y && decide (scaledF x < scaledF y)
-  | .int x, .float y => !isNaN y && decide (x * 2 ^ 1074 < scaledF y)
-  | .float x, .int y => !isNaN x && decide (scaledF x < y * 2 ^ 1074)
-  | _, _ => false
+  match numK a, numK b with
+  | some x, some y => decide (x < y)
+  | some _, none => isStr b
+  | none, some _ => false
+  | none, none => strLt a b
 
 def specMin : List Val → Option Val
   | [] => none
